@@ -27,7 +27,7 @@ DEDUCTIBLE = ['1040_sa.medical_dental_expenses', '1040_sa.state_local_real_estat
 
 def plan(tier, seed):
     from hv import scen
-    n = 4 if tier == 'quick' else 90
+    n = 4 if tier == 'quick' else 150
     sp = []
     fams = ['F0', 'F1', 'F2', 'F3', 'F4', 'F5', 'F6', 'F7', 'F8', 'F9', 'F10']
     for y in (2021, 2022, 2023):
